@@ -477,7 +477,9 @@ def check(prop, tier, seed, runs_override=None, workers=None, repo="/repo", time
         n = max(1, int(runs * frac))
         binary = B.binary(repo, flavour)
         w = workers if flavour != "asan" else min(workers, 16)
-        pool = Pool(binary, prop, seed, tier, n, cfg["chunk"], w, outdir, cfg["timeout"], deadline, 50, flavour)
+        # valgrind runs are a hundred times slower: one run per process so that they spread over the workers
+        chunk = 1 if flavour == "vg" else (max(2, cfg["chunk"] // 4) if flavour == "tsan" and prop != "C14" else cfg["chunk"])
+        pool = Pool(binary, prop, seed, tier, n, chunk, w, outdir, cfg["timeout"] * (4 if flavour == "vg" else 1), deadline, 50, flavour)
         tp = time.time()
         pool.run()
         per_flavour[flavour] = dict(runs=len(pool.results), wall_s=round(time.time() - tp, 2), crashes=len(pool.crashes))
